@@ -7,41 +7,41 @@
 From Coq Require Import ZArith List.
 From Redo Require Import Base.Bytes Build.Model Build.LocalProofs Build.FailProofs.
 
-Theorem C01_never_built_is_dirty : forall fuel runid w c f r mx seen,
+Theorem C01_never_built_is_dirty : forall fuel runid cyc w c f r mx seen,
   existsb (Nat.eqb f) seen = false ->
   r_changed r = None ->
-  is_dirty (S fuel) runid w c f r mx seen = Ret (VDirty, w, c, []).
+  is_dirty (S fuel) runid cyc w c f r mx seen = Ret (VDirty, w, c, []).
 Proof. exact is_dirty_never_built. Qed.
-Check C01_never_built_is_dirty : forall fuel runid w c f r mx seen,
+Check C01_never_built_is_dirty : forall fuel runid cyc w c f r mx seen,
   existsb (Nat.eqb f) seen = false ->
   r_changed r = None ->
-  is_dirty (S fuel) runid w c f r mx seen = Ret (VDirty, w, c, []).
+  is_dirty (S fuel) runid cyc w c f r mx seen = Ret (VDirty, w, c, []).
 Print Assumptions C01_never_built_is_dirty.
 
-Theorem C01_failed_is_dirty : forall fuel runid w c f r mx seen,
+Theorem C01_failed_is_dirty : forall fuel runid cyc w c f r mx seen,
   existsb (Nat.eqb f) seen = false ->
   r_failed r <> None ->
-  is_dirty (S fuel) runid w c f r mx seen = Ret (VDirty, w, c, []).
+  is_dirty (S fuel) runid cyc w c f r mx seen = Ret (VDirty, w, c, []).
 Proof. exact is_dirty_failed. Qed.
-Check C01_failed_is_dirty : forall fuel runid w c f r mx seen,
+Check C01_failed_is_dirty : forall fuel runid cyc w c f r mx seen,
   existsb (Nat.eqb f) seen = false ->
   r_failed r <> None ->
-  is_dirty (S fuel) runid w c f r mx seen = Ret (VDirty, w, c, []).
+  is_dirty (S fuel) runid cyc w c f r mx seen = Ret (VDirty, w, c, []).
 Print Assumptions C01_failed_is_dirty.
 
 (* a dependency that changed in a later run than its consumer was built or
    checked makes the consumer dirty *)
-Theorem C01_newer_dep_is_dirty : forall fuel runid w c f r mx seen chg,
+Theorem C01_newer_dep_is_dirty : forall fuel runid cyc w c f r mx seen chg,
   existsb (Nat.eqb f) seen = false ->
   r_failed r = None ->
   r_changed r = Some chg -> (mx < chg)%Z ->
-  is_dirty (S fuel) runid w c f r mx seen = Ret (VDirty, w, c, []).
+  is_dirty (S fuel) runid cyc w c f r mx seen = Ret (VDirty, w, c, []).
 Proof. exact is_dirty_newer. Qed.
-Check C01_newer_dep_is_dirty : forall fuel runid w c f r mx seen chg,
+Check C01_newer_dep_is_dirty : forall fuel runid cyc w c f r mx seen chg,
   existsb (Nat.eqb f) seen = false ->
   r_failed r = None ->
   r_changed r = Some chg -> (mx < chg)%Z ->
-  is_dirty (S fuel) runid w c f r mx seen = Ret (VDirty, w, c, []).
+  is_dirty (S fuel) runid cyc w c f r mx seen = Ret (VDirty, w, c, []).
 Print Assumptions C01_newer_dep_is_dirty.
 
 (* over the whole walk: a recorded Modified dependency that failed, was never
@@ -49,16 +49,16 @@ Print Assumptions C01_newer_dep_is_dirty.
    built or verified makes the target not clean -- wherever it stands in the
    dependency list and whatever the other rows say (every database, fuel,
    callback; [r] is the copy of the target's row that the check judges) *)
-Theorem C01_moved_on_dep_not_clean : forall fuel runid w c f r mx seen v w' c' evs chg,
-  is_dirty fuel runid w c f r mx seen = Ret (v, w', c', evs) ->
+Theorem C01_moved_on_dep_not_clean : forall fuel runid cyc w c f r mx seen v w' c' evs chg,
+  is_dirty fuel runid cyc w c f r mx seen = Ret (v, w', c', evs) ->
   chk_is_checked c runid r f = false ->
   r_changed r = Some chg ->
   (exists d, In d (deps_of (dbs w) r f) /\ d_mode d = DModified /\
      moved_on (Z.max chg match r_checked r with Some k => k | None => 0%Z end) (load runid (dbs w) (d_source d))) ->
   v <> VClean.
 Proof. exact moved_on_dep_not_clean. Qed.
-Check C01_moved_on_dep_not_clean : forall fuel runid w c f r mx seen v w' c' evs chg,
-  is_dirty fuel runid w c f r mx seen = Ret (v, w', c', evs) ->
+Check C01_moved_on_dep_not_clean : forall fuel runid cyc w c f r mx seen v w' c' evs chg,
+  is_dirty fuel runid cyc w c f r mx seen = Ret (v, w', c', evs) ->
   chk_is_checked c runid r f = false ->
   r_changed r = Some chg ->
   (exists d, In d (deps_of (dbs w) r f) /\ d_mode d = DModified /\
